@@ -12,6 +12,14 @@ CHECKS = {
                      "the space is finite and is covered completely, so this is as strong as the property's quantifier.",
                 note="Trusts the Python data-file readers, gcc's evaluation of the header macros, and the '%.10E' precision model; "
                      "configuration K depends on tools/kissel_regen.py (bound by the repo's Kissel tests)."),
+    "C02": dict(level="exploration", engine="ENUM", ref="4/C02",
+                technique="exhaustive enumeration of every knot interval of every spline table of the real library against an independent spline evaluator",
+                text="Every knot interval of every shipped spline table (about 0.5M intervals in both configurations) is visited at its left knot and "
+                     "at interior fractions, both table ends are straddled at 1e-12..1e-3, and the result is compared with an independent numpy "
+                     "evaluation on independently parsed knots; the interval structure is covered completely, the continuum inside an interval "
+                     "is represented by up to 7 points (a cubic has 4 degrees of freedom).",
+                note="Trusts the Python data-file readers and numpy; 1e-7 upper-end band and duplicated abscissae are don't-care zones as "
+                     "documented in DESIGN.md; configuration K depends on tools/kissel_regen.py."),
 }
 NOT_YET = {}
 ALL = ["C%02d" % i for i in range(1, 21)]
